@@ -40,6 +40,12 @@ def make_data(p):
     n, d, nv, nt, c_out = p['n'], p['d'], p['nv'], p['nt'], p['outputs']
     A = rs.randn(d, d) / math.sqrt(d) if p.get('correlated') else np.eye(d)
     X = rs.randn(n, d) @ A * p.get('spread', 1.0) + p.get('shift', 0.0)
+    if p.get('replicates', 1) > 1:
+        # replicated design points (repeated measurements, discrete features): distinct samples at distance zero
+        rep = p['replicates']
+        base = X[: max(2, n // rep)]
+        X = np.concatenate([base] * rep + [X[: n - len(base) * rep]], axis=0)[:n] if len(base) * rep <= n else np.concatenate([base] * rep)[:n]
+        X = X[rs.permutation(len(X))]
     Xv = rs.randn(nv, d) @ A * p.get('spread', 1.0) + p.get('shift', 0.0)
     Xt = rs.randn(nt, d) @ A * p.get('spread', 1.0) + p.get('shift', 0.0)
     W = rs.randn(d, c_out)
@@ -318,7 +324,10 @@ def gen_cases(run):
                           diag=r.random() < 0.4, iters=iters, return_best=return_best, script=script,
                           n=n, d=r.randint(2, 6), nv=r.randint(5, 30), nt=r.randint(3, 20), outputs=r.choice([1, 1, 2]),
                           correlated=r.random() < 0.5, spread=r.choice([1.0, 1.0, 0.05, 30.0]), shift=r.choice([0.0, 0.0, 5.0]),
-                          scales=sorted(scales), seed=r.randint(0, 2 ** 31 - 1)))
+                          scales=sorted(scales), seed=r.randint(0, 2 ** 31 - 1),
+                          # replicated design points, keeping at least 8 distinct ones (fewer make the iterates near-equivalent and
+                          # the selection between them a coin flip across scales)
+                          replicates=r.choice([1, 1, 1, 2, 3]) if n >= 24 else 1))
     for alias in ['sum_power_laplace', 'kermac_sum_power_laplace']:
         for iters in ([0, 2] if quick else [0, 1, 2, 3]):
             cases.append(dict(family='sum-power-adaptive', kernel=alias, q=r.choice(QS), base=1.0, diag=False, iters=iters, return_best=True,
